@@ -277,6 +277,21 @@ func stageOfFqname(fq string) string {
 	return ""
 }
 
+// canonicalJSON re-encodes a JSON text with sorted object keys (numbers kept verbatim).
+func canonicalJSON(b []byte) json.RawMessage {
+	dec := json.NewDecoder(bytes.NewReader(b))
+	dec.UseNumber()
+	var v interface{}
+	if err := dec.Decode(&v); err != nil {
+		return compactJSON(b)
+	}
+	out, err := json.Marshal(v)
+	if err != nil {
+		return compactJSON(b)
+	}
+	return out
+}
+
 func compactJSON(b []byte) json.RawMessage {
 	if len(b) == 0 {
 		return nil
@@ -460,7 +475,9 @@ func (r *TARun) runStage(job *TAJob, fault string) ([]byte, error) {
 		return nil, fmt.Errorf("unknown stage %q for %s", job.StageName, job.Fqname)
 	}
 	lookup := &r.Ast.TypeTable
-	argsCanon := string(compactJSON(job.Args))
+	// canonical form (object keys sorted): mrp writes the keys of a filtered typed map in Go map
+	// order, and the fake stage's outputs must not depend on the byte order of equal arguments
+	argsCanon := string(canonicalJSON(job.Args))
 	// outputs must not depend on where the pipestance lives or on attempt uniquifiers
 	if root := r.PsDir; root != "" {
 		argsCanon = strings.ReplaceAll(argsCanon, root, "$PS")
